@@ -183,9 +183,17 @@ class TraceIndex:
             self.parent_anc[a.id] = a.anc
 
 
+# what a superseded return value (sim/tracer.py) stands for: "void" -- no event is due (the
+# statement: one return-value event per normal completion, with the value actually returned);
+# "kept" -- an event, as for any executed return statement (the engine then makes it optional)
+SUPERSEDED = "kept"
+
+
 def event_vars(ev):
     """(varname, value) pairs a trace event stands for, as ptera names them."""
     k = ev["k"]
+    if k == "value" and ev.get("superseded") and SUPERSEDED == "void":
+        return []
     if k == "bind":
         return [(ev["var"], ev["val"])]
     if k in ("loop", "endloop"):
